@@ -29,7 +29,7 @@ def run(tier, t0):
                rprog.run(prog, cg),
                strs.strs(prog, cg, scope, 100), strs.str_loops(prog, scope, an, 20),
                wrap.wrap_loops(prog, lambda f: f.file.startswith(('disasm/', 'core/UtilContext', 'main/naken_util', 'fileio/')), an, 40, strict_fns=common.range_printers()),
-               lane.wrap_pages(prog, 2), fileloop.file_loops(prog)]
+               lane.wrap_pages(prog, 2), fileloop.file_loops(prog), term.getc_char(prog, lambda f: f.file.startswith(('core/', 'fileio/')))]
     return report.finish('C17', tier, results, EXPLANATION,
                          ['the invariants listed for not-decided subscripts were read from the code and replayed under ASan '
                           'during triage'], common.TRUSTED, t0)
